@@ -66,7 +66,7 @@ Proof. intros [Hleg Hn Hidx Htid Hbeg Hoff Hc] Hcnt Hg. pose proof Hg as (G1 & G
   - congruence. Qed.
 
 Section Excl.
-Variables (m : mode) (rv : Z -> Z -> Z).
+Variables (m : mode) (rv : Z -> Z -> list Z -> Z).
 
 Lemma excl_offer n off x msg : xinv n off x -> n < two31 - 1 -> off <= l_tlen (xlog x) ->
   zlen msg <= 1073741824 -> l_mtu (xlog x) mod 32 = 0 ->
